@@ -26,6 +26,10 @@ class Stmt:
             return self.args[:2]
         if k in ("acc", "pass", "sink", "probe", "errts"):
             return self.args[:1]
+        if k == "addk":
+            return self.args[1:3]
+        if k == "sinkk":
+            return self.args[1:2]
         if k == "script":
             return self.args[1:2]
         if k == "thrower":
@@ -151,14 +155,16 @@ def parse_prog(lines):
 # ---------------------------------------------------------------------------- flat elaboration
 
 class FNode:
-    def __init__(self, label, kind, ins, params, region=None):
+    def __init__(self, label, kind, ins, params, region=None, plabel=None):
         self.label, self.kind, self.ins, self.params, self.region = label, kind, ins, params, region
+        self.plabel = plabel if plabel is not None else label      # what the trace prints
 
 
 def elaborate(p):
     """Inline everything.  Returns (nodes in evaluation order, regions)
     ins: list of (source label, passive, unchecked, port) with port in main|err|bundle."""
     nodes, regions = [], {}
+    interned = {}
 
     def go(stmts, env, path, region, off=0, boundary_ok=False):
         fbs = {}
@@ -181,6 +187,16 @@ def elaborate(p):
                 nodes.append(FNode(lab, k, [], {"id": int(s.args[0])}, region)); env[key] = (lab, "main")
             elif k in ("add",):
                 nodes.append(FNode(lab, k, [ref(s.args[0]), ref(s.args[1])], {}, region)); env[key] = (lab, "main")
+            elif k == "addk":
+                ins = [ref(s.args[1]), ref(s.args[2])]
+                ikey = ("add", str(s.args[0]), tuple((r[0], r[1]) for r in ins), path)
+                if ikey in interned:
+                    env[key] = (interned[ikey], "main")     # same definition, scalars and inputs: one shared node
+                else:
+                    interned[ikey] = lab
+                    nodes.append(FNode(lab, "add", ins, {}, region, plabel=path + str(s.args[0]))); env[key] = (lab, "main")
+            elif k == "sinkk":
+                nodes.append(FNode(lab, "sink", [ref(s.args[1])], {}, region, plabel=path + str(s.args[0])))
             elif k in ("acc", "pass"):
                 nodes.append(FNode(lab, k, [ref(s.args[0])], {}, region)); env[key] = (lab, "main")
             elif k == "gate":
@@ -520,7 +536,7 @@ class Den:
                     i += 1
                 st["idx"] = i
             elif k == "add":
-                logs.append("E %s %d a=%s b=%s" % (n.label, t, self.desc(a, t), self.desc(b, t)))
+                logs.append("E %s %d a=%s b=%s" % (n.plabel, t, self.desc(a, t), self.desc(b, t)))
                 write(n.label, self.ival(a) + self.ival(b))
             elif k == "acc":
                 logs.append("E %s %d a=%s" % (n.label, t, self.desc(a, t)))
@@ -550,7 +566,7 @@ class Den:
                     write(n.label, emit)
                 logs.append("E %s %d k=%d %s %s%s" % (n.label, t, kk, before, after, tail))
             elif k == "sink":
-                logs.append("T %s %d %d" % (n.label, t, self.ival(a)))
+                logs.append("T %s %d %d" % (n.plabel, t, self.ival(a)))
             elif k == "thrower":
                 logs.append("E %s %d a=%s" % (n.label, t, self.desc(a, t)))
                 st["calls"]["e"] += 1
@@ -662,15 +678,17 @@ def den_check(p, trace_line, quirk=False):
             return dev, d
         # ---- C01: order of engine-level evaluations
         seen = []
+        plabels = [n.plabel for n in d.nodes]
+        shared = {l for l in plabels if plabels.count(l) > 1}     # distinct nodes that print one label
         for e in c["ev"]:
             w = e.split()
             if w[0] == "ne+":
-                if w[1] in seen:
+                if w[1] in seen and w[1] not in shared:
                     dev.append(("order", "node %s evaluated twice in cycle %d" % (w[1], t)))
                 seen.append(w[1])
         pos = {l: i for i, l in enumerate(seen)}
         for n in d.nodes:
-            if n.label in pos:
+            if n.label in pos and n.plabel == n.label:
                 for r in n.ins:
                     if r[0] in pos and pos[r[0]] > pos[n.label] and n.kind not in ("nestedhead", "nestedtail"):
                         dev.append(("order", "node %s evaluated before its producer %s in cycle %d" % (n.label, r[0], t)))
@@ -999,3 +1017,59 @@ def engine_stream(name, progs):
 
 def trace_of(out):
     return out[-1] if out else ""
+
+
+# ---------------------------------------------------------------------------- C06: order / sharing
+
+def split_segments(lines):
+    """a C06 case holds several programs separated by `reset`; returns [(lines, run_line_index)]"""
+    segs, cur, start = [], [], 1
+    for i, l in enumerate(lines[1:], 1):
+        if l == "reset":
+            segs.append(cur); cur = []
+        else:
+            cur.append((i, l))
+    segs.append(cur)
+    return segs
+
+
+def gen_sharing(rng):
+    """a dataflow with duplicated sub-expressions (same definition, same/different scalar, same/different
+    inputs, argument order swapped) and duplicated sinks; returned as a canonical statement list"""
+    p = Prog()
+    p.end = p.start + rng.choice([8, 12])
+    body, made, lbl = gen_body(rng, p, 1, [], rng.randint(2, 4), ["src", "src", "const"])
+    if len(made) < 2:
+        p.ticks[950] = gen_ticks(rng, p.start, 3, 8); body.append(Stmt(lbl, "src", [950])); made.append(str(lbl)); lbl += 1
+        p.ticks[951] = gen_ticks(rng, p.start, 3, 8); body.append(Stmt(lbl, "src", [951])); made.append(str(lbl)); lbl += 1
+    exprs = []
+    for _ in range(rng.randint(2, 6)):
+        pool = made + [str(e) for e in exprs]
+        if exprs and rng.random() < 0.45:
+            # duplicate an existing expression: same scalar+inputs (shareable), other scalar, or swapped inputs
+            pick = rng.choice(exprs)
+            src = next(s for s in body if s.lbl == pick)
+            mode = rng.choice(["same", "same", "scalar", "swap"])
+            k, a, b = src.args
+            if mode == "scalar":
+                k = int(k) + 1
+            elif mode == "swap":
+                a, b = b, a
+            body.append(Stmt(lbl, "addk", [k, a, b]))
+        else:
+            body.append(Stmt(lbl, "addk", [500 + 2 * lbl, rng.choice(pool), rng.choice(pool)]))
+        exprs.append(lbl); lbl += 1
+    for e in exprs:
+        body.append(Stmt(lbl, "sink", [e])); lbl += 1
+    # duplicated sinks must stay distinct (side effects happen twice)
+    for _ in range(rng.randint(0, 2)):
+        e = rng.choice(exprs)
+        body.append(Stmt(lbl, "sinkk", [700 + e, e])); lbl += 1
+        body.append(Stmt(lbl, "sinkk", [700 + e, e])); lbl += 1
+    p.root = body
+    return p
+
+
+def expected_node_count(p):
+    nodes, _ = elaborate(p)
+    return len([n for n in nodes if n.kind not in ("nestedhead", "nestedtail")])
